@@ -53,6 +53,11 @@ def run(ctx):
     # ... and so is the row index the readers hand to that bookkeeping
     from .c05 import _parquet_index
     _parquet_index(ctx)
+    # whether the calibrated scores are what brew returns is decided by the
+    # model-versus-best-feature comparison (shared with C07a): a miscount
+    # there silently replaces them by a raw feature column
+    from .c07 import _fallback
+    _fallback(ctx, prog.func("mokapot.brew.brew"))
 
 
 def _label_column_ok(tg):
